@@ -75,7 +75,7 @@ func printManifest(allProps []string) {
 			"kind_free_text": "repo-specific static analyser: go/packages + go/types resolved AST, go/cfg path rules (must-precede / must-follow / may-reach with branch-edge facts), lockset, go/ssa + VTA call-graph confinement, codec field-coverage, guarded arithmetic"}},
 		"checks":         checks,
 		"not_applicable": nas,
-		"notes":          "Every check decides structural necessary conditions of its property from /repo's current source (no execution, no solver). See DESIGN.md. Known findings: /verif/known_findings.txt.",
+		"notes":          "Every check decides structural necessary conditions of its property from /repo's current source (no execution, no solver); what a check does not decide is stated in its level text and never reported as held. Quick = the deciding run (exit 0 held / exit 1 with a VIOLATION line; an obligation that can no longer be decided also fails). Thorough = the same deciding run plus the mutation self-test of the check (tools/selftest.sh: every mutant under /verif/mutants/<id> and every archived seeded change under /verif/seeded/<id>* is applied to a scratch copy of the current tree, outside /repo and /verif, and must be reported; exit 4 = the check missed a mutant and must not be believed). See DESIGN.md (section 5: reports on the unchanged tree and their triage; section 7: seeds and mutants; Appendix A: what each check decides). Known findings: /verif/known_findings.txt.",
 	}
 	b, _ := json.MarshalIndent(m, "", " ")
 	fmt.Println(string(b))
